@@ -1,139 +1,6 @@
-import RtcVerif.Model.C15
+import RtcVerif.Model.C15Wire
 /-! Line-protocol driver for the C15 model (trajectory accessors). -/
-open Lean RtcVerif RtcVerif.Wire RtcVerif.Interp RtcVerif.C15
-
-def resJ : Res → Json
-  | .num q => ratJ q
-  | .nan => Json.str "nan"
-  | .raise => Json.str "raise"
-
-def getKnots (j : Json) (kt kv : String) : Option Knots := do
-  let t ← getRatList j kt
-  let v ← getRatList j kv
-  if t.length = v.length then pure (t.zip v) else none
-
-def optField (j : Json) (k : String) : Option Json :=
-  match getObj j k with
-  | some Json.null => none
-  | x => x
-
-def svarOfJson (j : Json) : Option SVar := do
-  let nominal ← getRat j "nominal"
-  let times ← getRatList j "times"
-  let xs ← getRatList j "xs"
-  let mode ← getNat j "mode"
-  let hist : Option Knots ←
-    match optField j "hist" with
-    | none => pure none
-    | some h => (getKnots h "t" "v").map some
-  let initDer : Option (Rat × Rat) ←
-    match optField j "initDer" with
-    | none => pure none
-    | some d => match asRatList d with
-      | some [a, b] => pure (some (a, b))
-      | _ => none
-  if times.length = xs.length then pure ⟨nominal, times, xs, mode, hist, initDer⟩ else none
-
-def probOfJson (j : Json) : Option Prob := do
-  let t0 ← getRat j "t0"
-  let times ← getRatList j "times"
-  let al ← getArr j "aliases"
-  let aliases ← al.mapM (fun a => do
-    let n ← getStr a "name"
-    let c ← getStr a "of"
-    let neg ← getBool a "neg"
-    pure (n, (c, neg)))
-  let sv ← getArr j "svars"
-  let svars ← sv.mapM (fun a => do
-    let n ← getStr a "name"
-    let v ← svarOfJson a
-    pure (n, v))
-  let ci ← getArr j "cins"
-  let cins ← ci.mapM (fun a => do
-    let n ← getStr a "name"
-    let ks ← getKnots a "t" "v"
-    let mode ← getNat a "mode"
-    pure (n, (⟨ks, mode⟩ : CIn)))
-  let pa ← getArr j "pars"
-  let pars ← pa.mapM (fun a => do
-    let n ← getStr a "name"
-    let v ← getRat a "v"
-    pure (n, v))
-  pure ⟨t0, times, aliases, svars, cins, pars⟩
-
-def optRat (j : Json) (k : String) : Option (Option Rat) :=
-  match optField j k with
-  | none => some none
-  | some v => (asRat v).map some
-
-def knotsJ : Option Knots → Json
-  | none => Json.str "raise"
-  | some ks => Json.mkObj [("t", ratsJ (ks.map (·.1))), ("x", ratsJ (ks.map (·.2)))]
-
-def query (p : Prob) (q : Json) : Option Json := do
-  let k ← getStr q "k"
-  let name ← getStr q "name"
-  match k with
-  | "state_at" =>
-      let t ← getRat q "t"
-      let scaled ← getBool q "scaled"
-      let extrap ← getBool q "extrap"
-      pure (resJ (stateAt p name t scaled extrap))
-  | "der_at" =>
-      let t ← getRat q "t"
-      pure (resJ (derAt p name t))
-  | "states_in" =>
-      let a ← optRat q "a"
-      let b ← optRat q "b"
-      pure (knotsJ (statesTimesIn p name a b))
-  | "integral" =>
-      let a ← optRat q "a"
-      let b ← optRat q "b"
-      pure (match integral p name a b with
-            | none => Json.str "raise"
-            | some v => ratJ v)
-  | _ => none
-
-def symOfJson (j : Json) : Option Sym :=
-  match j with
-  | Json.str "time" => some Sym.time
-  | Json.arr #[Json.str k, n] => do
-      let i ← (fromJson? n : Except String Nat).toOption
-      match k with
-      | "state" => pure (Sym.state i)
-      | "der" => pure (Sym.der i)
-      | "cin" => pure (Sym.cin i)
-      | "pathv" => pure (Sym.pathv i)
-      | "par" => pure (Sym.par i)
-      | _ => none
-  | _ => none
-
-def exprOfJson (j : Json) : Option Expr := do
-  let c ← getRat j "const"
-  let ts ← getArr j "terms"
-  let terms ← ts.mapM (fun t => do
-    let coef ← getRat t "c"
-    let ss ← getArr t "s"
-    let syms ← ss.mapM symOfJson
-    pure (coef, syms))
-  pure ⟨c, terms⟩
-
-def mapProbOfJson (j : Json) : Option MapProb := do
-  let t0 ← getRat j "t0"
-  let times ← getRatList j "times"
-  let cs ← getArr j "cols"
-  let cols ← cs.mapM (fun a => do
-    let v ← svarOfJson a
-    let d ← getRat a "idc"
-    pure (⟨v, d⟩ : ColVar))
-  let ci ← getArr j "cins"
-  let cins ← ci.mapM (fun a => do
-    let ks ← getKnots a "t" "v"
-    let mode ← getNat a "mode"
-    pure (⟨ks, mode⟩ : CIn))
-  let pathv ← getRatMat j "pathv"
-  let pars ← getRatList j "pars"
-  pure ⟨t0, times, cols, cins, pathv, pars⟩
+open Lean RtcVerif RtcVerif.Wire RtcVerif.Interp RtcVerif.C15 RtcVerif.C15.W
 
 def handle (j : Json) : Option Json := do
   let op ← getStr j "op"
